@@ -9,6 +9,10 @@ C  real runs of handleNewTCPConn against probe streams (random, zeros, protocol 
    log is validated against Classify.tla: first deadline 5..10 s ahead, no Write, no return/Close before the deadline
    unless the peer closed, every verdict equals the specification's, everything the peer sent was read.
    Probes last 5-10 s each, so they run as one (quick) or several (thorough) parallel batches.
+   Churn batch: probes in many segments (every read ends in lookups on the registration table) while registry writers - ingest
+   (TrackRegistration / AddRegistration), MarkActive, the expiry sweeper - run on other goroutines, on other phantoms: every probe
+   must still be read to its deadline and closed then, and the table must still answer afterwards (Classify.tla: HRLock / WAnnounce /
+   WWrite, Terminates; LookupLocks = "nested" must violate).
 """
 import json
 import vlib
@@ -102,9 +106,94 @@ def gen_cases(ctx, budget):
     return cases
 
 
+CHURN_PHANTOMS = 8
+
+
+def churn_world():
+    """world() plus sessions the registry writers work on: phantoms nobody connects to, not in the table when the batch starts."""
+    w = world()
+    for i in range(CHURN_PHANTOMS):
+        w["phantoms"]["CH%d" % i] = ("2001:48a8:687f:3::%x" % (i + 1)) if i % 4 == 3 else "192.122.200.%d" % (i + 1)
+    for i in range(3 * CHURN_PHANTOMS):
+        t, px = [("min", 0), ("prefix", 1 + i % 9), ("obfs4", 0)][i % 3]
+        w["regs"].append({"name": "churn-%d" % i, "secret": "s-churn-%d" % i, "transport": t, "prefix_id": px, "state": "absent", "phantom": "CH%d" % (i % CHURN_PHANTOMS)})
+    return w
+
+
+def gen_churn_cases(ctx, n):
+    """Short scripted streams in many segments: each of the 10-40 reads of a connection to a populated phantom offers what has arrived
+    so far to the transports that are still in the race, i.e. looks the phantom's registrations up while the writers run."""
+    rng = ctx.rng
+    cases = []
+
+    def add(st, L, dst, **kw):
+        k = rng.choice([10, 20, 40])
+        cuts = [rng.randrange(1, L) for _ in range(k)] if L > 2 else []
+        cases.append(cc.case("churn-%d" % (len(cases) + 1), dst, st, cuts, pace_ms=rng.choice([1, 2, 4]), **kw))
+
+    populated = ["P1", "P1", "P2", "P3", "V6a"]
+    while len(cases) < n:
+        k = len(cases) % 10
+        dst = rng.choice(populated) if k != 9 else rng.choice(["P0", "V6c"])
+        if k < 5:
+            L = rng.choice([65, 100, 300, 1000, 3000, 6000, 8193, 9000])
+            add(cc.stream(gen=rng.choice(["random", "random", "http", "tls", "zeros", "static:%d" % rng.choice(list(cc.PLEN))]), len=L), L, dst,
+                peer_close=(k == 4))
+        elif k < 7:
+            add(cc.stream(**{"from": "rmin", "flip": rng.randrange(256), "early": 200, "late": 30}), 230, "P1")
+        elif k == 7:
+            pid, frm = rng.choice([(0, "rpx0"), (1, "rpx1"), (9, "rpx9")])
+            plen = cc.PLEN[pid]
+            bit = rng.randrange(plen * 8, (plen + 31) * 8)
+            add(cc.stream(**{"from": frm, "client_px": pid, "flip": bit, "early": 300, "late": 30}), plen + 360, "P1")
+        else:
+            L = rng.choice([200, 2000, 5000])
+            add(cc.stream(gen="random", len=L), L, dst)
+    for i, c in enumerate(cases):
+        c["start_ms"] = (i % 8) * 40
+    return cases
+
+
+def churn_stage(ctx, thorough):
+    wch = churn_world()
+    ccases = gen_churn_cases(ctx, 600 if thorough else 300)
+    rows = []
+    ctx.log("C: %d probes in many segments while registry writers run (track / validate / mark active / sweep on other phantoms)" % len(ccases))
+    cres = cc.run_cases(ctx, [(wch, ccases)], par=650, churn=3, churn_rows=rows)
+    if not rows:
+        raise vlib.InfraError("the classify driver reported no churn")
+    ch = rows[0]
+    hung = [(w, cs, r) for (w, cs, r) in cres if r["final"].get("hung")]
+    blocked_at_start = sum(1 for (_, _, r) in cres if r.get("registry_blocked"))
+    if hung:
+        (_, cs, r) = hung[0]
+        ev = r["ev"]
+        last = [e for e in ev if e["a"] in ("Read", "Verdict", "SetDeadline")][-1:] or [None]
+        ctx.violation("c03:churn:stopped-reading-never-closed",
+                      "%d of %d probes classified while registry writers ran were never closed: the handler had not returned 6 s after the peer gave up "
+                      "(12.5 s after the connection arrived, every deadline long past) - e.g. case %s to %s: %d bytes sent, %d left unread, last handler "
+                      "event %s; Classify.tla: every lookup comes back, the handler reads until its deadline and returns (Terminates)"
+                      % (len(hung), len(cres), cs["id"], cs["dst"], r["final"].get("c2s_written", 0), r["final"].get("unread", 0), json.dumps(last[0])),
+                      {"hung": len(hung), "probes": len(cres), "case": cs, "events": ev[-12:], "final": r["final"], "churn": ch,
+                       "no_deadline_set": sum(1 for (_, _, x) in hung if not x["final"].get("deadlines"))})
+    if ch["registry_blocked"] or not ch["writers_back"] or blocked_at_start:
+        ctx.violation("c03:churn:registry-blocked",
+                      "after the churn batch the registration table %s; %d connections found it unanswering when they arrived (the handler's first step counts "
+                      "the phantom's registrations)" % ("no longer answers CountRegistrations / GetRegistrations" if ch["registry_blocked"] else
+                                                        "answers" if ch["writers_back"] else "answers reads, but its writers never came back", blocked_at_start), ch)
+    elif not hung and ch["ops"] < 500:
+        raise vlib.InfraError("only %d registry writes ran during the churn batch" % ch["ops"])
+    lookups = sum(1 for (_, _, r) in cres for e in r["ev"] if e["a"] == "Verdict")
+    ctx.stage("C", churn_probes=len(cres), churn_registry_writes=ch["ops"], churn_cycles=ch["cycles"], churn_write_errors=ch["errs"], churn_max_write_us=ch["max_op_us"],
+              churn_verdicts=lookups, churn_hung=len(hung))
+    ctx.log("C: churn: %d registry writes (slowest %d us), %d verdicts, %d handlers hung" % (ch["ops"], ch["max_op_us"], lookups, len(hung)))
+    # every log goes through trace validation; of the hung ones two are enough to name the offending event
+    return [x for x in cres if not x[2]["final"].get("hung")] + hung[:2]
+
+
 def run(ctx):
     thorough = ctx.tier == "thorough"
-    cc.stage_a(ctx)
+    cc.stage_a(ctx, locks=True)
     w = world()
     batches = 6 if thorough else 1
     allres = []
@@ -157,6 +246,7 @@ def run(ctx):
                           % (len(dls), " each preceded by the same legacy registration (secret %r)" % name if name != "none" else "", dls),
                           {"group": name, "deadlines_ms": dls})
     ctx.stage("C", deadline_groups={k: v for k, v in groups.items()})
+    allres += churn_stage(ctx, thorough)
     summary = cc.validate(ctx, "C03", allres, "c03")
     ctx.log("C: %d traces, %d accepted, %d rejected" % (summary["traces"], summary["accepted"], summary["rejected"]))
     # the deadline must be randomised: the observed first deadlines spread over the 5..10 s window
